@@ -173,7 +173,7 @@ fn tok_profile(profile: &str, seed: u64, n: usize, out: &mut dyn Write) {
                 }
                 "c06" | "c08" | "c05" => {
                     let mut k = 1 + crng.below(4);
-                    if profile == "c06" && crng.chance(1, 3) {
+                    if (profile == "c06" && crng.chance(1, 3)) || (profile == "c08" && crng.chance(1, 6)) {
                         // structured: several mappings (likely non-commuting), then a user lexicon, maybe a round trip
                         k = 0;
                         for _ in 0..2 + crng.below(2) {
@@ -191,7 +191,7 @@ fn tok_profile(profile: &str, seed: u64, n: usize, out: &mut dyn Write) {
                         }
                     }
                     for _ in 0..k {
-                        match crng.below(if profile == "c08" { 3 } else { 6 }) {
+                        match crng.below(if profile == "c08" { 4 } else { 6 }) {
                             0 | 1 => {
                                 // user lexicon
                                 let mut pool = d.surfaces.clone();
